@@ -488,11 +488,14 @@ def class_sweep(res: Result) -> int:
     for noise in (False, True):
         for cause in causes:
             classes: dict[str, dict[str, str]] = {}
-            for variant in ("plain", "disconnect-pending"):
+            for variant in ("plain", "disconnect-pending", "stop-callback-raises"):
+                if variant == "stop-callback-raises" and cause == "force":
+                    continue  # the application's own exception comes back out of its own force_disconnect() call
                 key = f"class:{'noise' if noise else 'plain'}:{cause}:{variant}"
                 h = ReqHarness(("noise:" if noise else "") + "AB", nd=False)
                 w = h.fresh()
                 try:
+                    w.stop_raises = variant == "stop-callback-raises"
                     if variant == "disconnect-pending":
                         w.spawn("disc", w.conn.disconnect)
                         w.drain()
@@ -532,7 +535,11 @@ def class_sweep(res: Result) -> int:
                         res.add(key + ":timer", f"C11:leftover-timer:request timers still armed after the close ({cause}, {variant}): {live}", d)
                 finally:
                     h.close(w)
-            if len(classes) == 2 and classes["plain"] != classes["disconnect-pending"]:
+            if "stop-callback-raises" in classes and classes["plain"] != classes["stop-callback-raises"]:
+                key = f"class:{'noise' if noise else 'plain'}:{cause}:stop-callback-raises"
+                res.add(key, f"C11:closed:with a stop callback that raises the outstanding calls end {classes['stop-callback-raises']} when the connection "
+                        f"closes by {cause}; with a well-behaved one they end {classes['plain']}", {"harness": "c11-class", "key": key})
+            if "disconnect-pending" in classes and classes["plain"] != classes["disconnect-pending"]:
                 key = f"class:{'noise' if noise else 'plain'}:{cause}:disconnect-pending"
                 res.add(key, f"C11:closed:with a graceful disconnect pending the outstanding calls end {classes['disconnect-pending']} when the connection "
                         f"closes by {cause}; without it they end {classes['plain']} - the connection's error is the same in both", {"harness": "c11-class", "key": key})
